@@ -41,7 +41,7 @@ EXIT_OK, EXIT_VIOLATION, EXIT_INCONCLUSIVE = 0, 1, 3
 
 class Case:
     def __init__(self, name, fn, labels=(), bounds=None, timeout_ms=30000, max_paths=20000,
-                 max_decisions=4000, wall_s=600, enum_limit=300, allow_cuts=True):
+                 max_decisions=4000, wall_s=600, enum_limit=300, allow_cuts=True, fresh_first=False):
         self.name = name
         self.fn = fn
         self.labels = list(labels)
@@ -51,6 +51,7 @@ class Case:
         self.max_decisions = max_decisions
         self.wall_s = wall_s
         self.enum_limit = enum_limit
+        self.fresh_first = fresh_first
 
 
 class Ctx:
@@ -189,7 +190,10 @@ class Ctx:
             run["discharged"] += 1
             run["trivial"] += 1
             return True
+        _t0 = time.time()
         m = self.E.model_of(z3.Not(t))
+        if os.environ.get("SX_TRACE"):
+            print("  prove %-50s %.2fs %s" % (label, time.time() - _t0, "cex" if m is not None else "unsat"), file=sys.stderr)
         if m is None:
             run["discharged"] += 1
             if len(run["samples"]) < 4:
@@ -279,6 +283,7 @@ def run_case_symbolic(case, str_constants=None):
                  max_decisions=case.max_decisions, wall_budget_s=case.wall_s,
                  enum_limit=case.enum_limit)
     eng.str_constants = str_constants or {}
+    eng.fresh_first = case.fresh_first
     run = {"reached": collections.Counter(), "obligations": 0, "discharged": 0, "trivial": 0,
            "cex": [], "samples": [], "exc_paths": 0}
 
